@@ -12,7 +12,7 @@ TECH = ('symbolic execution of rustc MIR (mirsym) + z3 of the real BuildJob::sta
         'native replay with the real binaries')
 
 PLAN = {
-    'C04': ['record'],
+    'C04': ['record', 'preamble'],
     'C10': ['crash'],
     'C11': ['preamble'],
 }
